@@ -33,6 +33,27 @@ def polyline(rng, sph):
     return pts, step
 
 
+def folded_polyline(rng, sph):
+    """a trench that turns back on itself through several bends of the same sign, each at most 60 degrees (a hairpin / hook): the distance from a point to
+    successive pieces is then not monotone along the curve, so a search that stops early or prunes pieces shows"""
+    n = rng.choice([5, 6, 7, 8, 9])
+    az = rng.uniform(0, 2 * math.pi)
+    step = rng.uniform(0.5, 2) * (math.pi / 180) if sph else rng.choice([50e3, 200e3, 400e3])
+    x, y = (rng.uniform(-2.5, 2.5), rng.uniform(-1.0, 1.0)) if sph else (rng.uniform(-1e6, 1e6), rng.uniform(-1e6, 1e6))
+    sgn = rng.choice([-1, 1])
+    pts = []
+    for i in range(n):
+        pts.append((x, y))
+        az += sgn * rng.uniform(0.6, 1.04) if i > 0 else 0          # 34 ... 60 degrees, same sign
+        l = step * rng.uniform(0.6, 1.6)
+        x += l * math.cos(az); y += l * math.sin(az)
+    return pts, step
+
+
+def any_polyline(rng, sph):
+    return folded_polyline(rng, sph) if rng.random() < 0.35 else polyline(rng, sph)
+
+
 def correspondence(seed, tier):
     rng = random.Random(seed * 9973 + 19)
     lines = []
@@ -55,7 +76,7 @@ def correspondence(seed, tier):
             lines.append("kpoly 0 %d %s %s" % (len(poly), hx([v for p in poly for v in p]), hx(q)))
     for _ in range(budget(tier, 300, 3000)):
         sph = rng.random() < 0.5
-        pts, step = polyline(rng, sph)
+        pts, step = any_polyline(rng, sph)
         i = rng.randrange(len(pts) - 1)
         t = rng.uniform(-0.1, 1.1)
         off = rng.uniform(-2, 2) * step
@@ -120,7 +141,7 @@ def oracle(seed, tier):
             meta.append(("poly", exact_inside(poly, q)[0], poly, q))
     for _ in range(budget(tier, 200, 2000)):
         sph = rng.random() < 0.5
-        pts, step = polyline(rng, sph)
+        pts, step = any_polyline(rng, sph)
         i = rng.randrange(len(pts) - 1)
         t = rng.uniform(0.05, 0.95)
         off = rng.uniform(-1.5, 1.5) * step
